@@ -283,13 +283,20 @@ def matlab_script_case(idx, payload):
     names = rng.sample(["robot.i", "base.i", "nav.i", "alpha.i", "zeta.i", "main_module.i"], rng.randint(2, 3))
     if names == sorted(names):
         names.reverse()
-    texts = []
+    texts, quals = [], []
     for k, nm in enumerate(names):
         m, t = gen_text(rng, dict(max_decls=3, ns_pool=[["r1"], ["r2"], ["r3"]][k], class_pool=[["Ca", "Cb"], ["Cc", "Cd"], ["Ce", "Cf"]][k],
                                   mnames=["f%d" % k, "g%d" % k], allow_typedef=False, p_template=0.0, extra_kinds=['cls', 'cls', 'ns']), serializable=0.3)
         texts.append(t.rstrip() + "\n")
+        import gen as _gen
+        quals += ["::".join(list(p_) + [d_.cls.name]) for p_, content in _gen.walk_namespaces(m) for d_ in content if d_.kind == 'cls']
     boost = rng.random() < 0.5
-    res = dict(idx=idx, text="\x1e".join(texts), script="matlab-multi", opts=dict(files=names, boost=boost), bad=None)
+    # --ignore: several entries (each its own argument), entries that merely CONTAIN the qualified name of a class that is to be
+    # wrapped (r1::CaPair next to r1::Ca), entries naming nothing
+    how = rng.choice(["none", "none", "one", "two", "contains", "prefixed"]) if quals else "none"
+    ignore = {"none": [], "one": rng.sample(quals, 1) if quals else [], "two": rng.sample(quals, min(2, len(quals))),
+              "contains": [rng.choice(quals) + "Pair"] if quals else [], "prefixed": ["outer::" + rng.choice(quals)] if quals else []}[how]
+    res = dict(idx=idx, text="\x1e".join(texts), script="matlab-multi", opts=dict(files=names, boost=boost, ignore=ignore), bad=None)
     d = tempfile.mkdtemp(prefix="verif_c16m_")
     try:
         for nm, t in zip(names, texts):
@@ -297,8 +304,10 @@ def matlab_script_case(idx, payload):
         cmd = [sys.executable, os.path.join(REPO, "scripts", "matlab_wrap.py"), "--src", ";".join(names), "--module_name", "modx", "--out", "tb"]
         if boost:
             cmd.append("--use-boost-serialization")
+        if ignore:
+            cmd += ["--ignore"] + ignore
         r = subprocess.run(cmd, cwd=d, capture_output=True, text=True, timeout=120, env=dict(os.environ, PYTHONPATH=REPO))
-        api = impl_matlab(texts, "modx", [], boost)
+        api = impl_matlab(texts, "modx", ignore, boost)
         got = {}
         for root, _, fs in os.walk(os.path.join(d, "tb")):
             for fn in fs:
@@ -309,8 +318,8 @@ def matlab_script_case(idx, payload):
             if r.returncode != 0 or got != api[1]:
                 from props._matlab_common import files_diff
                 dd = files_diff(api[1], got) if r.returncode == 0 else dict(stderr=r.stderr[-300:])
-                res["bad"] = dict(kind="spec", what="scripts/matlab_wrap.py with several files does not produce what the API produces for the same list (in the order given)",
-                                  files=names, texts=texts, **dd)
+                res["bad"] = dict(kind="spec", what="scripts/matlab_wrap.py with several files does not produce what the API produces for the same list (in the order given) and the same ignore list",
+                                  files=names, texts=texts, ignore=ignore, **dd)
         elif r.returncode == 0:
             res["bad"] = dict(kind="spec", what="script succeeds where the API fails", files=names, texts=texts)
     finally:
@@ -321,7 +330,7 @@ def matlab_script_case(idx, payload):
 def run(ctx, scale, off=0, collect=True):
     first = None
     for fn, n, tag in ((compose_case, scale[0], "compose"), (matlab_case, scale[1], "matlab_concat"), (script_case, scale[2], "script"),
-                       (driver_case, max(10, scale[0] // 4), "api_driver"), (matlab_script_case, max(8, scale[2] // 5), "matlab_script_multi")):
+                       (driver_case, max(10, scale[0] // 4), "api_driver"), (matlab_script_case, max(16, scale[2] // 3), "matlab_script_multi")):
         for r in fw.run_cases(fn, [(ctx.seed + off, None)] * n):
             if "crash" in r:
                 raise RuntimeError(r["crash"])
